@@ -24,7 +24,7 @@
 (***************************************************************************)
 EXTENDS JournalRand, Json, Functions   \* Range from Functions
 
-CONSTANTS MaxTx, Shape, Extra   \* transactions per file (1..MaxTx); Shape = 0: random shape, else index into Shapes;
+CONSTANTS MaxTx, Shape, Extra, Prices   \* Prices: every file also carries a price directive (P DATE COMMODITY AMOUNT); transactions per file (1..MaxTx); Shape = 0: random shape, else index into Shapes;
                                 \* Extra: every file also gets the C15 transaction (three commodities out of balance, shared payee)
 
 FileNames == <<"main.journal", "a.journal", "b.journal", "sub/c.journal">>
@@ -88,6 +88,8 @@ WDecls(x) ==
     (IF Coin(2, x) THEN <<[dir |-> "account", acct |-> Pick(WAccounts), cmt |-> NoCmt]>> ELSE <<>>)
     \o (IF Coin(3, x) THEN <<[dir |-> "account", acct |-> Pick(WAccounts), cmt |-> IF Coin(2, x) THEN <<WCmt(x)>> ELSE NoCmt]>> ELSE <<>>)
     \o (IF Coin(3, x) THEN <<[dir |-> "commodity", comm |-> Pick(WComms \ {0}), form |-> "plain", fmt |-> 1]>> ELSE <<>>)
+    \* a price directive names two commodities: both are occurrences of those symbols
+    \o (IF Prices THEN <<[dir |-> "P", date |-> D(2024, 1, 15), comm |-> Pick({1, 4}), a |-> Amt(108, 2, Pick({4, 7}))]>> ELSE <<>>)
 
 (* C15's precondition: a transaction with three commodities out of balance, under a payee every file
    uses, with different postings (= a different payee template) in every file *)
